@@ -24,6 +24,49 @@ fn drive<P: Prop>(p: P, mode: &str, file: Option<&str>) -> i32 {
     }
 }
 
+/// Poisoning allocator: every heap block gets a 64-byte tail filled with 0xA5 which is checked
+/// when the block is freed.  An out-of-bounds *read* just past an engine buffer therefore yields
+/// 0xA5A5A5A5 words, an out-of-bounds *write* is noticed on free (C17).
+struct Poison;
+const TAIL: usize = 64;
+unsafe impl std::alloc::GlobalAlloc for Poison {
+    unsafe fn alloc(&self, l: std::alloc::Layout) -> *mut u8 {
+        let l2 = std::alloc::Layout::from_size_align_unchecked(l.size() + TAIL, l.align());
+        let p = std::alloc::System.alloc(l2);
+        if !p.is_null() {
+            std::ptr::write_bytes(p.add(l.size()), 0xA5, TAIL);
+        }
+        p
+    }
+    unsafe fn dealloc(&self, p: *mut u8, l: std::alloc::Layout) {
+        let tail = std::slice::from_raw_parts(p.add(l.size()), TAIL);
+        if tail.iter().any(|b| *b != 0xA5) {
+            llgv::props::c17::HEAP_TAIL_CORRUPTED.store(true, std::sync::atomic::Ordering::SeqCst);
+        }
+        let l2 = std::alloc::Layout::from_size_align_unchecked(l.size() + TAIL, l.align());
+        std::alloc::System.dealloc(p, l2);
+    }
+    unsafe fn alloc_zeroed(&self, l: std::alloc::Layout) -> *mut u8 {
+        let p = self.alloc(l);
+        if !p.is_null() {
+            std::ptr::write_bytes(p, 0, l.size());
+        }
+        p
+    }
+    unsafe fn realloc(&self, p: *mut u8, l: std::alloc::Layout, new_size: usize) -> *mut u8 {
+        let nl = std::alloc::Layout::from_size_align_unchecked(new_size, l.align());
+        let np = self.alloc(nl);
+        if !np.is_null() {
+            std::ptr::copy_nonoverlapping(p, np, l.size().min(new_size));
+            self.dealloc(p, l);
+        }
+        np
+    }
+}
+
+#[global_allocator]
+static GLOBAL: Poison = Poison;
+
 fn main() {
     // engine panics are caught by the engine itself (catch_unwind); keep the default hook quiet
     std::panic::set_hook(Box::new(|_| {}));
@@ -50,6 +93,7 @@ fn main() {
         "C14" => drive(props::c14::C14, mode, file),
         "C15" => drive(props::c15::C15, mode, file),
         "C16" => drive(props::c16::C16, mode, file),
+        "C17" => drive(props::c17::C17, mode, file),
         "C19" => drive(props::c19::C19, mode, file),
         "C12" => drive(props::c11::C12, mode, file),
         other => {
